@@ -23,11 +23,11 @@ CHECKS = {
  "C06": dict(engine="E2 loopback", level="model_checking", technique="explicit-state breadth-first search over file-tree states with the real Server executing every transition, reference policy oracle, hidden-state differential guard",
    text="BFS to depth 2 (thorough 3) over 24 request actions from an initial tree in all 32 configurations; every transition is judged by a reference policy function written from the statement.",
    note="Trusted: reference policy; state = file tree (server-internal state is guarded differentially by probing revisited states).", design="§4, §6 C06"),
- "C07": dict(engine="E1 simnet", level="model_checking", technique="stateless deviation-bounded exploration of the real Worker (both roles) with termination monitors; silence and ERROR injected at every point",
-   text="All answer sequences with <= D deviations (2, thorough 3) over the G1 grid, plus all-timeout from every point and ERROR at every point (handshake included), both roles; monitors T1-T5.",
+ "C07": dict(engine="E1 simnet + E2 loopback", level="model_checking", technique="stateless deviation-bounded exploration of the real Worker (both roles) with termination monitors; silence, ERROR and k non-progress answers injected at every point; plus ERROR/silence histories against the real Server",
+   text="All answer sequences with <= D deviations (2, thorough 3) over the G1 grid, plus all-timeout from every point, ERROR at every point (handshake included) and k = 0..9 non-progress answers of one kind followed by silence, both roles; monitors T1-T5. Through the real Server (both port modes): peer ERROR after k steps ends the transfer at once; silence is answered by a retransmission after the default 5 s and by giving up after six 1-second timeouts (wall clock).",
    note="Trusted: SimSocket seam; bounded retry accepted up to 16 consecutive timeouts.", design="§6 C07"),
- "C08": dict(engine="E1 simnet", level="model_checking", technique="stateless deviation-bounded exploration with a virtual clock: ACK alphabet x delays {0,T/2,T-1ns}, windowsize incl. 65534/65535, overflow-checked build in the thorough tier",
-   text="All answer sequences with <= D deviations where every ACK kind (full, partial, duplicate, stale, future) arrives with delay 0, T/2 or T-1ns; monitors W1-W4 on bursts and virtual time; windowsize 1,2,3,4,8,65534,65535.",
+ "C08": dict(engine="E1 simnet + E2 loopback", level="model_checking", technique="stateless deviation-bounded exploration with a virtual clock: ACK alphabet x delays {0,T/2,T-1ns}, windowsize incl. 65534/65535, overflow-checked build in the thorough tier",
+   text="All answer sequences with <= D deviations where every ACK kind (full, partial, duplicate, stale, future) arrives with delay 0, T/2 or T-1ns; monitors W1-W4 on bursts and virtual time; windowsize 1,2,3,4,8,65534,65535 (incl. a completely filled 65535-block window). Through the real Server: a duplicate ACK 0.7 s before a negotiated 6 s interval elapses triggers nothing (wall clock).",
    note="Trusted: virtual clock hook (the run fails as machinery error if the hook is bypassed).", design="§6 C08"),
  "C09": dict(engine="E2 loopback", level="model_checking", technique="exhaustive enumeration of option lists (ordered selections x boundary values x casing x unknown/duplicate options) against the real Server with a reference negotiator and transfer-shape oracle",
    text="All ordered selections of the four options with boundary values (thorough: full cross product), x RRQ/WRQ x single/multi port x file sizes, each accepted request carried to its end with the acknowledged values; one wall-clock clause (retransmission interval) measured with asymmetric tolerance.",
@@ -36,16 +36,16 @@ CHECKS = {
    text="All interleavings of 2 scripts (10 pairs) and 3 short scripts, in both port modes, with an intruder datagram of 4 kinds to 2 targets at every position; per-client byte identity, source-port discipline, ERROR to the intruder.",
    note="Assumes the driver's one-datagram-at-a-time regime; the server's internal thread schedule is the OS's (overlapped pairs in the thorough tier).", design="§6 C12"),
  "C13": dict(engine="E1 simnet + E2 loopback", level="fault_enumeration", technique="exhaustive enumeration of abort points x causes (ERROR, silence, RLIMIT_FSIZE write error) and of all interleavings of a stale and a fresh real Worker on one path",
-   text="Every abort point of uploads of 1..5 blocks x cause x clean/keep x windowsize; all interleavings of two real Workers on one path; the same history through the real Server.",
+   text="Every abort point of uploads of 1..5 blocks x cause x clean/keep x windowsize; all interleavings of two real Workers on one path; the same history through the real Server; single failing uploads through the real Server onto fresh and existing names.",
    note="The check-then-create window of two WRQs in no-overwrite mode is outside the enumerated schedules.", design="§6 C13"),
  "C14": dict(engine="E2 loopback + E1 simnet", level="exploration", technique="exhaustive run of a boundary-value configuration grid (in-process Client/Server, real binaries) plus exhaustive single-fault placement between two real Workers",
    text="Boundary grid size x blksize x windowsize x timeout x port mode x direction with the in-process bundled client; real tftpc/tftpd binaries on IPv4/IPv6 with three path styles and three refusal kinds; two real Workers over the simulated network with every placement of <=1 (2) faults.",
    note="Grid = boundary-value selection of a large space, hence 'exploration'.", design="§6 C14"),
- "C15": dict(engine="E1 simnet", level="fault_enumeration", technique="exhaustive enumeration of fault placements in the block-number wrap neighbourhood of >65535-block transfers (real Worker + reference peer)",
-   text="Transfers of 65535..65539 (and 131074) blocks, both roles, windowsize placing the wrap at the end/start/middle of a window, every placement of up to F (1, thorough 2) faults on datagrams carrying/acknowledging blocks 65530..65541.",
+ "C15": dict(engine="E1 simnet + E2 loopback", level="fault_enumeration", technique="exhaustive enumeration of fault placements in the block-number wrap neighbourhood of >65535-block transfers (real Worker + reference peer)",
+   text="Transfers of 65535..65539 (and 131074) blocks, both roles, windowsize placing the wrap at the end/start/middle of a window, every placement of up to F (1, thorough 2) faults on datagrams carrying/acknowledging blocks 65530..65541; plus uploads and downloads of 65541 blocks through the real Server in both port modes.",
    note="Trusted: absolute block tracking in the monitors.", design="§6 C15"),
  "C16": dict(engine="E1 simnet + E2 loopback", level="model_checking", technique="stateless exploration of the real Worker with repeat = N+1 under the multiplicity monitor, wire counts against the real Server, exhaustive N = 0..300 through the config parser",
-   text="N in {0,1,2,3,254} x roles x windowsize x lengths with D <= 1 deviations, peers answering once or every copy; copies counted on the wire for N in 0..3 in both port modes; N = 0..=300 through Config::new and 254/255/256 through the binary.",
+   text="N in {0,1,2,3,254} x roles x windowsize x lengths with D <= 1 deviations, peers answering once or every copy; copies counted on the wire for N in 0..3 in both port modes; a peer that leaves after the first copy of the final ACK; a window of copies that outlasts the timeout (1 ms of virtual time per copy); N = 0..=300 through Config::new and 254/255/256 through the binary; tftpc against a duplicating tftpd.",
    note="Wire-level surplus-copy detection uses a short wait; exact counting is done in E1.", design="§6 C16"),
  "C10": dict(engine="E3 seq", level="model_checking", technique="exhaustive bounded enumeration of datagrams through the real decoder (explicit enumeration, no sampling)",
    text="Every byte string of <=5 (thorough <=7 after a valid opcode) tokens over a 19-token structural alphabet, all 65536 opcode prefixes x tails, and all single-site mutations of valid encodings are pushed through the real Packet::deserialize; mandatory rejections are judged by an independent RFC decoder, stability by re-encoding with the real encoder. Exhaustive within the alphabet/length bound.",
